@@ -15,8 +15,10 @@ LEVEL = "exploration"
 
 STR_KEYS = ["a", "b", "a.b", "a']['b", "a['b']", "a\"b", "a]", "['x']", "s", "s.a", "", "é", "名", "1", "0.5", "a ",
             "(1, 2)", "-1", "s['a']", "getattr(s, 'a')", "x', 'y",
-            "\u00b5", "\u03bc", "\ufb01", "fi", "\u212b", "\u00c5"]     # identifiers that differ only by Unicode normalisation
+            "\u00b5", "\u03bc", "\ufb01", "fi", "\u212b", "\u00c5",      # identifiers that differ only by Unicode normalisation
+            "magnet_family_a_0017_strength_x", "magnet_family_a_0018_strength_x"]   # long generated names differing in the middle
 OTHER_KEYS = [0, 1, 10, -1, -2, 0.5, -2.5, (1, 2), ("a", 1), (1,), ("a.b",),
+              (1, 2, 3, 4, 5, 6, 7, 8), (1, 2, 3, 4, 5, 6, 7, 9), 10 ** 45 + 1, 10 ** 45 + 10 ** 20 + 1,   # long keys differing in the middle / at the end
               0.3, 0.1 + 0.2, 0.30000000000000007]                          # floats that differ beyond the 15th significant digit
 SUB_KEYS = ["a", "a.b", 1, "s"]
 
@@ -214,6 +216,10 @@ def job_exprs(_):
     trees += [("bi", "round", x, (("lit", 1),)) for x in d1[::11]] + [("bi", "divmod", x, (("loc", A_),)) for x in d1[::11]]
     trees += [("call", "pick", (x,), (("k", ("loc", B_)),)) for x in d1[::11]]
     trees += [("dyn", ("s", ("i", "l")), x) for x in d1[::11]]
+    # chains of one operator nested to the left and to the right: different structure (and value, in floating point)
+    for o in ("add", "mul", "sub"):
+        for c3 in (("loc", A_), ("lit", 2.5e10)):
+            trees += [("bin", o, ("bin", o, ("loc", A_), ("loc", B_)), c3), ("bin", o, ("loc", A_), ("bin", o, ("loc", B_), c3))]
     ev = 0
     issues = []
     texts = {}
@@ -228,6 +234,18 @@ def job_exprs(_):
                                    f"(==: {e1 == e2}, hashes equal: {hash(e1) == hash(e2)})",
                            "program": [T.show(t)], "config": {}, "case": {"expr": repr(t)}})
         texts.setdefault(str(e1), t)
+    # chains of one operator nested to the left and to the right are DIFFERENT expressions: they must not compare equal
+    for o in ("add", "mul", "sub"):
+        for c3 in (("loc", A_), ("lit", 2.5e10)):
+            tl = ("bin", o, ("bin", o, ("loc", A_), ("loc", B_)), c3)
+            tr = ("bin", o, ("loc", A_), ("bin", o, ("loc", B_), c3))
+            el, er = T.to_ref(tl, mk()), T.to_ref(tr, mk())
+            ev += 1
+            if (el == er) is not False or {el: 1}.get(er) is not None:
+                issues.append({"kind": "violation", "property": "C06", "finding": None,
+                               "what": f"expressions of different structure, {T.show(tl)} and {T.show(tr)}, compare equal / select the same "
+                                       f"dictionary entry (hashes equal: {hash(el) == hash(er)})",
+                               "program": [T.show(tl), T.show(tr)], "config": {}, "case": {"expr": repr(tl)}})
     return {"evaluations": ev, "issues": issues, "distinct_texts": len(texts)}
 
 
